@@ -115,8 +115,8 @@ def native_build():
     return os.path.join(KDIR, 'target', 'debug', 'gbverif'), ''
 
 
-TAGS = {'rb': 0xF1F1F1F1F1F1F101, 'wb': 0xF1F1F1F1F1F1F102, 'ww': 0xF1F1F1F1F1F1F103, 'rw': 0xF1F1F1F1F1F1F104}
-FN_NAMES = {'rb': 'crate::mem::memory_read_byte', 'wb': 'crate::mem::memory_write_byte', 'ww': 'crate::mem::memory_write_word', 'rw': 'crate::mem::memory_read_word'}
+TAGS = {'rb': 0xF1F1F1F1F1F1F101, 'wb': 0xF1F1F1F1F1F1F102, 'ww': 0xF1F1F1F1F1F1F103, 'rw': 0xF1F1F1F1F1F1F104, 'pw': 0xF1F1F1F1F1F1F105}
+FN_NAMES = {'rb': 'crate::mem::memory_read_byte', 'wb': 'crate::mem::memory_write_byte', 'ww': 'crate::mem::memory_write_word', 'rw': 'crate::mem::memory_read_word', 'pw': 'crate::mem::memory_push_word'}
 
 
 def gen_jit():
@@ -279,7 +279,7 @@ def run_harnesses(group, feature, names, timeout_s, extra_flags=(), fast=True, m
     info = {'engine': 'kani:' + group, 'key': key, 'cached': len(names) - len(todo), 'ran': len(todo), 'wall_s': 0.0, 'cmd': '', 'notes': []}
     if todo:
         full = ['%s::harnesses::%s' % (module or group, n) for n in todo]
-        cmd = ['cargo', 'kani', '--features', feature, '-Z', 'stubbing'] + (FAST if fast else []) + list(extra_flags) + \
+        cmd = ['cargo', 'kani', '--features', feature, '-Z', 'stubbing'] + (FAST if fast else ['-Z', 'unstable-options']) + list(extra_flags) + \
               ['-j', str(jobs or NPROC), '--output-format=terse', '--harness-timeout', '%ds' % timeout_s, '--exact']
         for f in full:
             cmd += ['--harness', f]
